@@ -4,6 +4,13 @@ import CashewsVerif.Lemmas.Decor.HitStep
 /-
 C14 — early / soft / failover / hit keep their staleness and reuse bounds.
 
+EXECUTIONS TAKE TIME.  A call operation `.call o d` carries, besides the scripted outcome `o`, the duration `d` of the
+function body IF it runs inside the call: what the decorator does before `await func(...)` (which reads, which
+comparisons with the clock, which lock / counter writes) happens at the instant the call began, what it does after it
+(which reads, the deadline stamps, the store) and the answer itself `d` ticks later — exactly as ordered in
+early.py / soft.py / fail.py / hit.py.  The age of whatever a call hands out is judged AT THE INSTANT IT IS HANDED OUT,
+`servedAt start d out` (= the clock after the call step: `answer_instant_is_clock_after_call`).
+
 Property theorems only (helper lemmas live in `Lemmas/Decor/`).  Every theorem quantifies over ALL
 histories `ops : List DOp` — calls with a scripted outcome of the wrapped function and of the store step that
 follows a success (success with a fresh token stamped with its virtual instant, stored | listed exception |
@@ -21,39 +28,99 @@ Boundaries mirrored from the code (DESIGN §8, not judged): `early` serves witho
 namespace CashewsVerif.Props.C14
 open CashewsVerif CashewsVerif.Decor
 
+/-! ## the instant of the answer -/
+
+/-- **the instant at which a call hands out its answer is the model clock after the call**, for the four strategies:
+the instant the call began when no function body ran inside it, `d` ticks later when one did. -/
+theorem answer_instant_is_clock_after_call (o : Outcome) (d : Nat) :
+    (∀ (c : Early.Cfg) (s : Early.St), (Early.call c s o d).1.t.now = servedAt s.t.now d (Early.call c s o d).2) ∧
+    (∀ (c : Soft.Cfg) (s : Soft.St), (Soft.call c s o d).1.t.now = servedAt s.t.now d (Soft.call c s o d).2) ∧
+    (∀ (c : Fail.Cfg) (s : Fail.St), (Fail.call c s o d).1.t.now = servedAt s.t.now d (Fail.call c s o d).2) ∧
+    (∀ (c : Hit.Cfg) (s : Hit.St), (Hit.call c s o d).1.t.now = servedAt s.t.now d (Hit.call c s o d).2) :=
+  ⟨fun c s => Early.call_now c s o d, fun c s => Soft.call_now c s o d, fun c s => Fail.call_now c s o d,
+   fun c s => Hit.call_now c s o d⟩
+
 /-! ## early -/
 
-/-- **early: a call never receives a result stored more than ttl ago.**  Whatever value a call hands
-out (fresh or from the store, also the one handed out after a foreground refresh) was stored at an
-instant `s ≤ now` with `now < s + ttl`. -/
+/-- **early: a call never receives a result stored more than ttl ago** — judged at the instant the result is handed
+out, executions taking any time.  Whatever value a call hands out — fresh after an execution of any duration (nothing
+was stored, or a foreground refresh the caller waited for), or from the store — was produced / stored at an instant `s`
+not after the instant `at` of the answer, with `at < s + ttl`; a fresh value is stamped with the instant of the answer
+(age 0), and a value from the store is handed out without the function running inside the call, i.e. at the very
+instant it was read. -/
 theorem early_never_older_than_ttl (c : Early.Cfg) (httl : 0 < c.ttl) (ops : List DOp) :
-    ∀ e ∈ trace (Early.step c) Early.init ops, ∀ out, e.2.2 = .call out →
-      ∀ s i, (out.res = .fresh s i ∨ out.res = .stored s i) → s ≤ e.1.t.now ∧ e.1.t.now < s + c.ttl := by
-  intro e he out hout s i hr
+    ∀ e ∈ trace (Early.step c) Early.init ops, ∀ o d out, e.2.1 = .call o d → e.2.2 = .call out →
+      ∀ s i, (out.res = .fresh s i ∨ out.res = .stored s i) →
+        s ≤ servedAt e.1.t.now d out ∧ servedAt e.1.t.now d out < s + c.ttl ∧
+        (out.res = .fresh s i → s = servedAt e.1.t.now d out) ∧
+        (out.res = .stored s i → out.exec = false ∧ servedAt e.1.t.now d out = e.1.t.now) := by
+  intro e he o d out hop hout s i hr
   obtain ⟨hinv, hans⟩ := (trace_inv' (Early.step c) (Early.Inv c) (fun s o => Early.inv_step httl s o)
     ops Early.init (Early.inv_init c)).2 e he
   obtain ⟨s0, op, ans⟩ := e
-  simp only at hout hans hinv ⊢
-  subst hout
-  cases op with
-  | call o =>
-    simp only [Early.step, Ans.call.injEq] at hans
-    subst hans
-    exact Early.call_age httl hinv o hr
-  | adv dt => simp [Early.step] at hans
-  | done j o => simp [Early.step] at hans
+  simp only at hop hout hans hinv ⊢
+  subst hop hout
+  simp only [Early.step, Ans.call.injEq] at hans
+  subst hans
+  have h := Early.call_age httl hinv o d hr
+  exact ⟨h.1, h.2.1, h.2.2.1, fun hs => ⟨h.2.2.2 hs, by simp [servedAt, h.2.2.2 hs]⟩⟩
+
+/-- **early, foreground refresh: the caller that waited gets the refreshed result** (the repair of D40: the code used to
+return the result it had read BEFORE the refresh — after a slow refresh one stored more than ttl ago).  After any
+history, with `background=False`, a call that finds a stale stored result and no refresh lock executes the function
+for `d` ticks and is answered with that execution's own outcome at `now + d` — never with the result read `d` ticks
+earlier. -/
+theorem early_foreground_refresh_answers_fresh (c : Early.Cfg) (ops : List DOp) (o : Outcome) (d : Nat) :
+    let st := final (Early.step c) Early.init ops
+    (Early.call c st o d).2.exec = true → (Early.call c st o d).2.started = true →
+      (Early.call c st o d).2.res = o.result (st.t.now + d) st.nexec ∧ ∀ s i, (Early.call c st o d).2.res ≠ .stored s i := by
+  intro st hx _
+  have h := (Early.call_answer c st o d hx).1
+  refine ⟨h, fun s i hs => ?_⟩
+  rw [h] at hs
+  cases o <;> simp [Outcome.result] at hs
 
 /-- **early: while the stored result is younger than early_ttl (or exactly that old — the code's
 boundary) a call receives it without executing the function**, without creating a refresh task and
-without touching the store — after any history, whatever the function would have done. -/
-theorem early_young_served_without_executing (c : Early.Cfg) (httl : 0 < c.ttl) (ops : List DOp) (o : Outcome) :
+without touching the store or letting time pass — after any history, whatever the function would have done and
+however long it would have taken.  (The age counts from the instant the execution that produced the result
+FINISHED: that is the stamp `s`.) -/
+theorem early_young_served_without_executing (c : Early.Cfg) (httl : 0 < c.ttl) (ops : List DOp) (o : Outcome) (d : Nat) :
     let st := final (Early.step c) Early.init ops
     ∀ s i x, cached3 st.t = some (s, i, x) → st.t.now ≤ s + c.early →
-      Early.call c st o = (st, ⟨.stored s i, false, false⟩) := by
+      Early.call c st o d = (st, ⟨.stored s i, false, false⟩) := by
   intro st s i x hc hy
   have hinv := (trace_inv' (Early.step c) (Early.Inv c) (fun s o => Early.inv_step httl s o)
     ops Early.init (Early.inv_init c)).1
-  exact Early.call_young hinv o hc hy
+  exact Early.call_young hinv o d hc hy
+
+/-- **early: the inner deadline and the hard ttl of a result count from the instant its execution finished**, however
+long the execution took: after any history, a call that finds nothing stored and whose execution takes `d` ticks and
+succeeds stores `(now + d, id)` with inner deadline `now + d + early_ttl`, readable until `now + d + ttl`. -/
+theorem early_deadlines_count_from_completion (c : Early.Cfg) (httl : 0 < c.ttl) (ops : List DOp) (d : Nat) :
+    let st := final (Early.step c) Early.init ops
+    cached3 st.t = none →
+      cached3 (Early.call c st .ok d).1.t = some (st.t.now + d, st.nexec, st.t.now + d + c.early) ∧
+      ∀ dt, cached3 (advance (Early.call c st .ok d).1.t dt) =
+        if dt < c.ttl then some (st.t.now + d, st.nexec, st.t.now + d + c.early) else none := by
+  intro st hc
+  have key : ∀ dt, cached3 (advance (Early.call c st .ok d).1.t dt) =
+      if dt < c.ttl then some (st.t.now + d, st.nexec, st.t.now + d + c.early) else none := by
+    intro dt
+    unfold Early.call
+    simp only [hc]
+    unfold cached3 TtlMap.find Early.save
+    simp only [advance_m, advance_now, write_now]
+    rw [write_m _ _ _ httl]
+    simp only [if_true, Entry.live]
+    by_cases h : dt < c.ttl
+    · have : st.t.now + d + dt < st.t.now + d + c.ttl := by omega
+      simp [this, h, pack3, unpack3]
+    · have : ¬ st.t.now + d + dt < st.t.now + d + c.ttl := by omega
+      simp [this, h]
+  refine ⟨?_, key⟩
+  have := key 0
+  simpa [advance, httl] using this
 
 /-- **early: at most one refresh at a time, as long as a refresh completes within early_ttl.**  In every
 history in which, whenever a call is made, each refresh in flight was started less than `early_ttl`
@@ -68,57 +135,72 @@ theorem early_at_most_one_refresh (c : Early.Cfg) (hearly : 0 < c.early) (ops : 
   exact ⟨Early.single_length h.1, fun e he => Early.single_length (h.2 e he).1⟩
 
 /- FULL STATEMENT (does not hold, see `early_foreground_failure_propagates`; recorded as known finding D19):
-   theorem early_answers_from_store (c) (httl : 0 < c.ttl) (ops) (o) :
+   theorem early_answers_from_store (c) (httl : 0 < c.ttl) (ops) (o) (d) :
        let st := final (Early.step c) Early.init ops
-       ∀ s i x, cached3 st.t = some (s, i, x) → (Early.call c st o).2.res = .stored s i
+       ∀ s i x, cached3 st.t = some (s, i, x) →
+         (Early.call c st o d).2.res = .stored s i ∨ (… the refreshed result, as below …)
 -/
 /-- **early: a call that finds a stored result (one younger than ttl) answers from the store** — also
-when it is older than early_ttl and whether or not this call triggers the refresh — *provided* the
-refresh runs in the background or, running in the foreground, raises nothing (it succeeds and is stored, or
-the condition turns its result down).  What is missing for the full statement is exactly the case
-`background=False` + a refresh that raises (the function, or the store step after it), where the code lets the
-exception out of `await task` (D19, known finding). -/
-theorem early_answers_from_store_partial (c : Early.Cfg) (ops : List DOp) (o : Outcome)
+when it is older than early_ttl and whether or not this call triggers the refresh: it is answered with the stored
+result, immediately and without the function running inside the call, or — `background=False`, the call has waited for
+the refresh it triggered — with the refreshed result (the one that refresh has just stored, or that the condition
+turned down), stamped with the instant of the answer; *provided* the refresh runs in the background or, running in the
+foreground, raises nothing.  What is missing for the full statement is exactly the case `background=False` + a refresh
+that raises (the function, or the store step after it), where the code lets the exception out of `await task` (D19,
+known finding). -/
+theorem early_answers_from_store_partial (c : Early.Cfg) (ops : List DOp) (o : Outcome) (d : Nat)
     (hyp : c.bg = true ∨ o.raises = false) :
     let st := final (Early.step c) Early.init ops
-    ∀ s i x, cached3 st.t = some (s, i, x) → (Early.call c st o).2.res = .stored s i := by
+    ∀ s i x, cached3 st.t = some (s, i, x) →
+      ((Early.call c st o d).2.res = .stored s i ∧ (Early.call c st o d).2.exec = false) ∨
+      (c.bg = false ∧ (Early.call c st o d).2.exec = true ∧ (Early.call c st o d).2.started = true ∧
+        (Early.call c st o d).2.res = .fresh (st.t.now + d) st.nexec) := by
   intro st s i x hc
-  exact Early.call_from_store o hc hyp
+  rcases Early.call_from_store (c := c) o d hc with h | ⟨h1, h2, h3, h4⟩
+  · exact Or.inl h
+  · rcases hyp with hyp | hyp
+    · rw [hyp] at h1; simp at h1
+    · refine Or.inr ⟨h1, h2, h3, ?_⟩
+      rw [h4]
+      cases o <;> first | rfl | (simp [Outcome.raises] at hyp)
 
 /-- **D19 witnessed in the model**: ttl 2 s, early_ttl ½ s, background off; a result is stored, 5/8 s
 pass, the refresh made by the next call raises: the call raises too although a result younger than ttl
 is in the store.  (The same history is corpus/C14/D19_early_foreground_refresh_failure.json and behaves
 identically on the real code.) -/
 theorem early_foreground_failure_propagates :
-    ∃ (c : Early.Cfg) (ops : List DOp) (o : Outcome), 0 < c.ttl ∧ 0 < c.early ∧
+    ∃ (c : Early.Cfg) (ops : List DOp) (o : Outcome) (d : Nat), 0 < c.ttl ∧ 0 < c.early ∧
       cached3 (final (Early.step c) Early.init ops).t = some (0, 0, 4) ∧
-      (Early.call c (final (Early.step c) Early.init ops) o).2.res = .raised o :=
-  ⟨⟨16, 4, false⟩, [.call .ok, .adv 5], .listed, by decide, by decide, by decide, by decide⟩
+      (Early.call c (final (Early.step c) Early.init ops) o d).2.res = .raised o :=
+  ⟨⟨16, 4, false⟩, [.call .ok 0, .adv 5], .listed, 0, by decide, by decide, by decide, by decide⟩
 
 /-! ## soft -/
 
 /-- **soft: a result older than soft_ttl (or exactly that old, or gone) is recomputed by the next
-call**: after any history, if whatever is stored is at least `soft_ttl` old, the call executes the function. -/
-theorem soft_old_is_recomputed (c : Soft.Cfg) (httl : 0 < c.ttl) (ops : List DOp) (o : Outcome) :
+call**: after any history, if whatever is stored is at least `soft_ttl` old when the call begins, the call executes
+the function (however long that takes). -/
+theorem soft_old_is_recomputed (c : Soft.Cfg) (httl : 0 < c.ttl) (ops : List DOp) (o : Outcome) (d : Nat) :
     let st := final (Soft.step c) Soft.init ops
-    (∀ s i x, cached3 st.t = some (s, i, x) → s + c.soft ≤ st.t.now) → (Soft.call c st o).2.exec = true := by
+    (∀ s i x, cached3 st.t = some (s, i, x) → s + c.soft ≤ st.t.now) → (Soft.call c st o d).2.exec = true := by
   intro st hold
   have hinv := (trace_inv' (Soft.step c) (Soft.Inv c) (fun s o => Soft.inv_step httl s o)
     ops Soft.init (Soft.inv_init c)).1
-  exact Soft.call_exec hinv o hold
+  exact Soft.call_exec hinv o d hold
 
-/-- **soft: a stale result is served again only if that recomputation raised a listed exception and
-the result is still younger than ttl.**  Every call of every history that hands out a stored result
-`(s, i)`: the result is younger than ttl, and either it is younger than soft_ttl and nothing was
-executed, or it is at least soft_ttl old, this call executed the function and the outcome was a listed
-exception (never success, never an unlisted exception). -/
+/-- **soft: a stale result is served again only if that recomputation raised a listed exception and the result is
+still younger than ttl — AT THE INSTANT IT IS HANDED OUT.**  Every call of every history that hands out a stored result
+`(s, i)`: the result is younger than ttl at the instant of the answer, and either it was younger than soft_ttl when the
+call began, nothing was executed and the answer is immediate, or it was at least soft_ttl old, this call executed the
+function, the outcome was a listed exception (never success, never an unlisted exception) and the answer comes `d` ticks
+after the call began (the result having been read again at that moment: a result that reached its ttl while the
+function was running is not served). -/
 theorem soft_stale_only_on_listed (c : Soft.Cfg) (httl : 0 < c.ttl) (ops : List DOp) :
-    ∀ e ∈ trace (Soft.step c) Soft.init ops, ∀ o out, e.2.1 = .call o → e.2.2 = .call out →
+    ∀ e ∈ trace (Soft.step c) Soft.init ops, ∀ o d out, e.2.1 = .call o d → e.2.2 = .call out →
       ∀ s i, out.res = .stored s i →
-        s ≤ e.1.t.now ∧ e.1.t.now < s + c.ttl ∧
-        ((e.1.t.now < s + c.soft ∧ out.exec = false) ∨
-         (s + c.soft ≤ e.1.t.now ∧ out.exec = true ∧ o = .listed)) := by
-  intro e he o out hop hout s i hr
+        s ≤ servedAt e.1.t.now d out ∧ servedAt e.1.t.now d out < s + c.ttl ∧
+        ((e.1.t.now < s + c.soft ∧ out.exec = false ∧ servedAt e.1.t.now d out = e.1.t.now) ∨
+         (s + c.soft ≤ e.1.t.now ∧ out.exec = true ∧ o = .listed ∧ servedAt e.1.t.now d out = e.1.t.now + d)) := by
+  intro e he o d out hop hout s i hr
   obtain ⟨hinv, hans⟩ := (trace_inv' (Soft.step c) (Soft.Inv c) (fun s o => Soft.inv_step httl s o)
     ops Soft.init (Soft.inv_init c)).2 e he
   obtain ⟨s0, op, ans⟩ := e
@@ -126,30 +208,56 @@ theorem soft_stale_only_on_listed (c : Soft.Cfg) (httl : 0 < c.ttl) (ops : List 
   subst hop hout
   simp only [Soft.step, Ans.call.injEq] at hans
   subst hans
-  exact Soft.call_stored hinv o hr
+  obtain ⟨h1, h2, h3⟩ := Soft.call_stored hinv o d hr
+  refine ⟨h1, h2, ?_⟩
+  rcases h3 with ⟨h4, h5⟩ | ⟨h4, h5, h6⟩
+  · exact Or.inl ⟨h4, h5, by simp [servedAt, h5]⟩
+  · exact Or.inr ⟨h4, h5, h6, by simp [servedAt, h5]⟩
+
+/-- **soft: the fallback is looked up when the recomputation fails, not when the call starts** (the repair of D39: the
+code used to fall back to what it had read before the function ran — after a slow failure a result stored more than ttl
+ago).  After any history, a call that recomputes (whatever is stored is at least soft_ttl old, or nothing is), whose
+function runs for `d` ticks and raises a listed exception, is answered with whatever is readable `d` ticks later: the
+stored result if it is still there, the exception itself if nothing is — in particular if the result that was there
+when the call began expired meanwhile. -/
+theorem soft_fallback_judged_at_failure (c : Soft.Cfg) (ops : List DOp) (d : Nat) :
+    let st := final (Soft.step c) Soft.init ops
+    (Soft.call c st .listed d).2.exec = true →
+      (∀ s i x, cached3 (advance st.t d) = some (s, i, x) → (Soft.call c st .listed d).2.res = .stored s i) ∧
+      (cached3 (advance st.t d) = none → (Soft.call c st .listed d).2.res = .raised .listed) := by
+  intro st hx
+  rcases Soft.call_cases c st .listed d with ⟨_, hcall, _⟩ | ⟨hx', _⟩
+  · rw [hcall]
+    exact Soft.execute_listed c (Soft.later st d)
+  · rw [hx] at hx'; simp at hx'
 
 /-! ## failover -/
 
 /-- **failover: the function is executed on every call** — every call answer of every history reports
-an execution, and the number of executions grows by one with each call. -/
+an execution, the number of executions grows by one with each call, and the answer comes `d` ticks after the call
+began. -/
 theorem failover_executes_every_call (c : Fail.Cfg) (ops : List DOp) :
-    ∀ e ∈ trace (Fail.step c) Fail.init ops, ∀ o, e.2.1 = .call o →
-      (∃ out, e.2.2 = .call out ∧ out.exec = true) ∧ (Fail.step c e.1 e.2.1).1.nexec = e.1.nexec + 1 := by
-  intro e he o hop
+    ∀ e ∈ trace (Fail.step c) Fail.init ops, ∀ o d, e.2.1 = .call o d →
+      (∃ out, e.2.2 = .call out ∧ out.exec = true ∧ servedAt e.1.t.now d out = e.1.t.now + d) ∧
+      (Fail.step c e.1 e.2.1).1.nexec = e.1.nexec + 1 := by
+  intro e he o d hop
   obtain ⟨_, hans⟩ := (trace_inv' (Fail.step c) (fun _ => True) (fun _ _ _ => trivial)
     ops Fail.init trivial).2 e he
   obtain ⟨s0, op, ans⟩ := e
   simp only at hop hans ⊢
   subst hop
   simp only [Fail.step] at hans ⊢
-  exact ⟨⟨_, hans, (Fail.call_exec c s0 o).1⟩, (Fail.call_exec c s0 o).2⟩
+  have h := Fail.call_exec c s0 o d
+  exact ⟨⟨_, hans, h.1, by simp [servedAt, h.1]⟩, h.2.1⟩
 
 /-- **failover: a stored result is returned only when the function raised a listed exception, and only
-while younger than ttl.** -/
+while younger than ttl — AT THE INSTANT IT IS RETURNED**, i.e. when the function has failed, `d` ticks after the call
+began: a result that reaches its ttl while the function is running is not returned. -/
 theorem failover_stored_only_on_listed (c : Fail.Cfg) (httl : 0 < c.ttl) (ops : List DOp) :
-    ∀ e ∈ trace (Fail.step c) Fail.init ops, ∀ o out, e.2.1 = .call o → e.2.2 = .call out →
-      ∀ s i, out.res = .stored s i → o = .listed ∧ s ≤ e.1.t.now ∧ e.1.t.now < s + c.ttl := by
-  intro e he o out hop hout s i hr
+    ∀ e ∈ trace (Fail.step c) Fail.init ops, ∀ o d out, e.2.1 = .call o d → e.2.2 = .call out →
+      ∀ s i, out.res = .stored s i →
+        o = .listed ∧ s ≤ servedAt e.1.t.now d out ∧ servedAt e.1.t.now d out < s + c.ttl := by
+  intro e he o d out hop hout s i hr
   obtain ⟨hinv, hans⟩ := (trace_inv' (Fail.step c) (Fail.Inv c) (fun s o => Fail.inv_step httl s o)
     ops Fail.init (Fail.inv_init c)).2 e he
   obtain ⟨s0, op, ans⟩ := e
@@ -157,7 +265,20 @@ theorem failover_stored_only_on_listed (c : Fail.Cfg) (httl : 0 < c.ttl) (ops : 
   subst hop hout
   simp only [Fail.step, Ans.call.injEq] at hans
   subst hans
-  exact Fail.call_stored hinv o hr
+  have h := Fail.call_stored hinv o d hr
+  have hx := (Fail.call_exec c s0 o d).1
+  simpa [servedAt, hx] using h
+
+/-- **failover: the fallback is looked up when the function fails, not when the call starts.**  After any history, a
+call whose function runs for `d` ticks and raises a listed exception is answered with whatever is readable `d` ticks
+later: the stored result if it is still there (younger than ttl then), the exception itself if nothing is — in
+particular if the result that was there when the call began expired meanwhile. -/
+theorem failover_fallback_judged_at_failure (c : Fail.Cfg) (ops : List DOp) (d : Nat) :
+    let st := final (Fail.step c) Fail.init ops
+    (∀ s i, cached2 (advance st.t d) = some (s, i) → (Fail.call c st .listed d).2.res = .stored s i) ∧
+    (cached2 (advance st.t d) = none → (Fail.call c st .listed d).2.res = .raised .listed) := by
+  intro st
+  exact ⟨fun s i hc => Fail.call_listed hc, fun hc => Fail.call_listed_expired hc⟩
 
 /-! ## hit -/
 
@@ -165,7 +286,7 @@ theorem failover_stored_only_on_listed (c : Fail.Cfg) (httl : 0 < c.ttl) (ops : 
 function is executed again.**  `Hit.counts false` counts, from the recorded answers alone, the serves
 since the function last *began* to execute (in a call, or as a refresh task).  In every history in
 which no call is made while a background refresh is still in flight (`Hit.SeqOK`) this count never
-exceeds `cache_hits` — for every history, hence at every point of every history. -/
+exceeds `cache_hits` — for every history, hence at every point of every history, whatever the executions' durations. -/
 theorem hit_serves_bounded_sequential (c : Hit.Cfg) (httl : 0 < c.ttl) (ops : List DOp)
     (hseq : ∀ e ∈ trace (Hit.step c) Hit.init ops, Hit.SeqOK e.1 e.2.1) :
     (Hit.counts false (trace (Hit.step c) Hit.init ops)).1 ≤ c.hits := by
@@ -174,9 +295,9 @@ theorem hit_serves_bounded_sequential (c : Hit.Cfg) (httl : 0 < c.ttl) (ops : Li
   exact h.tg.bound
 
 /-- **hit, overlapping refreshes too**: for *every* history (calls while refreshes are in flight,
-refreshes finishing in any order and arbitrarily late), at most `cache_hits` serves lie between two
-consecutive execution events, where an event is the function beginning to execute or a background
-refresh finishing and getting as far as storing its result — stored, or refused by the backend after the
+refreshes finishing in any order and arbitrarily late, foreground executions of any duration), at most `cache_hits`
+serves lie between two consecutive execution events, where an event is the function beginning to execute or a
+background refresh finishing and getting as far as storing its result — stored, or refused by the backend after the
 counter was deleted (`Hit.counts true`, `Hit.reachedSet`). -/
 theorem hit_serves_bounded (c : Hit.Cfg) (httl : 0 < c.ttl) (ops : List DOp) :
     (Hit.counts true (trace (Hit.step c) Hit.init ops)).1 ≤ c.hits := by
@@ -193,21 +314,21 @@ If a stored result is found then: the call creates a refresh task iff it is the 
 since the store (with `0 < update_after ≤ cache_hits`); up to the `cache_hits`-th call the stored result is
 the answer (except that a *foreground* refresh that raises — the function or its store step — lets that
 exception out: mirrored, the sentence about hit does not promise an answer); and the `(cache_hits+1)`-th and
-later calls execute the function again and are answered by that execution (`Outcome.result`: its fresh result,
-its exception, or the exception of its store step — never the stored result). -/
-theorem hit_refresh_iff_update_after (c : Hit.Cfg) (httl : 0 < c.ttl) (ops : List DOp) (o : Outcome) :
+later calls execute the function again and are answered by that execution (`Outcome.result`: its fresh result stamped
+with the instant it finished, its exception, or the exception of its store step — never the stored result). -/
+theorem hit_refresh_iff_update_after (c : Hit.Cfg) (httl : 0 < c.ttl) (ops : List DOp) (o : Outcome) (d : Nat) :
     let st := final (Hit.step c) Hit.init ops
     let k := (Hit.counts true (trace (Hit.step c) Hit.init ops)).2
     ∀ s i, cached2 st.t = some (s, i) →
-      (((Hit.call c st o).2.started = true ↔ (k + 1 = c.upd ∧ c.upd ≠ 0 ∧ c.upd ≤ c.hits)) ∧
-       (k + 1 ≤ c.hits → (Hit.call c st o).2.res = .stored s i ∨
-          (c.bg = false ∧ o.raises = true ∧ k + 1 = c.upd ∧ (Hit.call c st o).2.res = o.result st.t.now st.nexec)) ∧
-       (c.hits < k + 1 → (Hit.call c st o).2.exec = true ∧ (Hit.call c st o).2.started = false ∧
-          (Hit.call c st o).2.res = o.result st.t.now st.nexec)) := by
+      (((Hit.call c st o d).2.started = true ↔ (k + 1 = c.upd ∧ c.upd ≠ 0 ∧ c.upd ≤ c.hits)) ∧
+       (k + 1 ≤ c.hits → (Hit.call c st o d).2.res = .stored s i ∨
+          (c.bg = false ∧ o.raises = true ∧ k + 1 = c.upd ∧ (Hit.call c st o d).2.res = o.result (st.t.now + d) st.nexec)) ∧
+       (c.hits < k + 1 → (Hit.call c st o d).2.exec = true ∧ (Hit.call c st o d).2.started = false ∧
+          (Hit.call c st o d).2.res = o.result (st.t.now + d) st.nexec)) := by
   intro st k s i hc
   have h := Hit.good_run httl true ops Hit.init 0 0 (Hit.good_init c true) (fun hb => by simp at hb)
   rw [← Hit.counts_eq] at h
-  exact Hit.call_started httl h o hc
+  exact Hit.call_started httl h o d hc
 
 /-! ## the store step after a successful execution (condition, callable ttl, `backend.set`)
 
@@ -216,16 +337,16 @@ decided — afterwards: the caller gets the fresh result (also when the conditio
 the store step raised, whether or not that exception is one of the decorator's listed `exceptions`; and whatever
 is stored stays exactly what it was unless the outcome is `ok`. -/
 
-/-- **failover: a call whose execution returned is answered by that execution** — its fresh result (stored, or
-turned down by the condition), or the exception its store step raised (condition / callable ttl / `backend.set`,
-listed or not) — never a stored result; and unless the outcome is `ok` the store is left exactly as it was.
-After any history. -/
-theorem failover_returned_execution_answers (c : Fail.Cfg) (ops : List DOp) (o : Outcome) :
+/-- **failover: a call whose execution returned is answered by that execution** — its fresh result (stamped with the
+instant the function finished; stored, or turned down by the condition), or the exception its store step raised
+(condition / callable ttl / `backend.set`, listed or not) — never a stored result; and unless the outcome is `ok` the
+store is left exactly as it was (only the clock has moved).  After any history. -/
+theorem failover_returned_execution_answers (c : Fail.Cfg) (ops : List DOp) (o : Outcome) (d : Nat) :
     let st := final (Fail.step c) Fail.init ops
-    (o.returns = true → (Fail.call c st o).2.res = o.result st.t.now st.nexec) ∧
-    (o ≠ .ok → (Fail.call c st o).1.t = st.t) := by
+    (o.returns = true → (Fail.call c st o d).2.res = o.result (st.t.now + d) st.nexec) ∧
+    (o ≠ .ok → (Fail.call c st o d).1.t = advance st.t d) := by
   intro st
-  have h := Fail.call_spec c st o
+  have h := Fail.call_spec c st o d
   refine ⟨?_, h.2.2⟩
   intro hr
   cases o with
@@ -237,17 +358,17 @@ theorem failover_returned_execution_answers (c : Fail.Cfg) (ops : List DOp) (o :
 
 /-- **soft: a recomputation that returned is answered by itself** — whenever a call executes the function and the
 function returns, the caller gets that fresh result (stored, or turned down by the condition) or the exception
-of the store step (listed or not), never the stale result; and unless the outcome is `ok` the store is left
-exactly as it was (so the next call recomputes again: `soft_old_is_recomputed`).  After any history. -/
-theorem soft_returned_execution_answers (c : Soft.Cfg) (ops : List DOp) (o : Outcome) :
+of the store step (listed or not), never the stale result; and unless the outcome is `ok` the content of the store is
+left exactly as it was (so the next call recomputes again: `soft_old_is_recomputed`).  After any history. -/
+theorem soft_returned_execution_answers (c : Soft.Cfg) (ops : List DOp) (o : Outcome) (d : Nat) :
     let st := final (Soft.step c) Soft.init ops
-    ((Soft.call c st o).2.exec = true → o.returns = true → (Soft.call c st o).2.res = o.result st.t.now st.nexec) ∧
-    (o ≠ .ok → (Soft.call c st o).1.t = st.t) := by
+    ((Soft.call c st o d).2.exec = true → o.returns = true → (Soft.call c st o d).2.res = o.result (st.t.now + d) st.nexec) ∧
+    (o ≠ .ok → (Soft.call c st o d).1.t.m = st.t.m) := by
   intro st
-  rcases Soft.call_cases c st o with ⟨hx, x, hcall⟩ | ⟨hx, hs⟩
+  rcases Soft.call_cases c st o d with ⟨hx, hcall, _⟩ | ⟨hx, hs, _⟩
   · rw [hcall]
-    have h := Soft.execute_spec c st o x
-    refine ⟨fun _ hr => ?_, h.2.2⟩
+    have h := Soft.execute_spec c (Soft.later st d) o
+    refine ⟨fun _ hr => ?_, fun ho => by rw [h.2.2 ho]; rfl⟩
     cases o with
     | ok => exact h.1 (Or.inl rfl)
     | rejected => exact h.1 (Or.inr rfl)
@@ -257,29 +378,26 @@ theorem soft_returned_execution_answers (c : Soft.Cfg) (ops : List DOp) (o : Out
   · exact ⟨fun hx' => by rw [hx] at hx'; simp at hx', fun _ => by rw [hs]⟩
 
 /-- **early: whenever the function runs inside a call, the caller is handed what that execution produced** —
-its result, its exception or the exception of its store step (`Outcome.result`) when nothing was stored; for a
-foreground refresh (`started`) that raises, the same (D19); for a foreground refresh that raises nothing, the
-stored result it was started for.  After any history. -/
-theorem early_execution_answers (c : Early.Cfg) (ops : List DOp) (o : Outcome) :
+its result (stamped with the instant it finished), its exception or the exception of its store step
+(`Outcome.result`) — both when nothing was stored and when the call waited for a foreground refresh (`started`;
+`background=False`, a stale result stored; a refresh that raises: D19); never a stored result.  After any history. -/
+theorem early_execution_answers (c : Early.Cfg) (ops : List DOp) (o : Outcome) (d : Nat) :
     let st := final (Early.step c) Early.init ops
-    (Early.call c st o).2.exec = true →
-      ((Early.call c st o).2.started = false ∧ cached3 st.t = none ∧
-         (Early.call c st o).2.res = o.result st.t.now st.nexec) ∨
-      ((Early.call c st o).2.started = true ∧
-        ((o.raises = true ∧ (Early.call c st o).2.res = o.result st.t.now st.nexec) ∨
-         (o.raises = false ∧ ∃ s i x, cached3 st.t = some (s, i, x) ∧ (Early.call c st o).2.res = .stored s i))) := by
+    (Early.call c st o d).2.exec = true →
+      (Early.call c st o d).2.res = o.result (st.t.now + d) st.nexec ∧
+      (((Early.call c st o d).2.started = false ∧ cached3 st.t = none) ∨
+       ((Early.call c st o d).2.started = true ∧ c.bg = false ∧ ∃ s i x, cached3 st.t = some (s, i, x) ∧ x < st.t.now)) := by
   intro st hx
-  exact Early.call_answer c st o hx
+  exact Early.call_answer c st o d hx
 
 /-- **early: only an execution with outcome `ok` changes the stored result.**  A call, or the completion of a
 background refresh, whose execution raises, is turned down by the condition or fails in its store step leaves
-what `get` finds under the result's key exactly as it was.  After any history. -/
-theorem early_only_ok_stores (c : Early.Cfg) (hearly : 0 < c.early) (ops : List DOp) (o : Outcome) (ho : o ≠ .ok) :
+the entry under the result's key exactly as it was.  After any history. -/
+theorem early_only_ok_stores (c : Early.Cfg) (hearly : 0 < c.early) (ops : List DOp) (o : Outcome) (d : Nat) (ho : o ≠ .ok) :
     let st := final (Early.step c) Early.init ops
-    cached3 (Early.call c st o).1.t = cached3 st.t ∧ ∀ i, cached3 (Early.done c st i o).1.t = cached3 st.t := by
+    (Early.call c st o d).1.t.m kMain = st.t.m kMain ∧ ∀ i, cached3 (Early.done c st i o).1.t = cached3 st.t := by
   intro st
-  have h1 := Early.call_main hearly st o ho
-  refine ⟨cached3_congr h1.2 h1.1, fun i => ?_⟩
+  refine ⟨Early.call_main hearly st o d ho, fun i => ?_⟩
   have h2 := Early.done_main (c := c) st i o ho
   exact cached3_congr h2.2 h2.1
 
@@ -287,24 +405,23 @@ theorem early_only_ok_stores (c : Early.Cfg) (hearly : 0 < c.early) (ops : List 
 result, its exception or the exception of its store step when the call is its own computation; for a foreground
 refresh that raises, the same; for a foreground refresh that raises nothing, the stored result.  After any
 history. -/
-theorem hit_execution_answers (c : Hit.Cfg) (ops : List DOp) (o : Outcome) :
+theorem hit_execution_answers (c : Hit.Cfg) (ops : List DOp) (o : Outcome) (d : Nat) :
     let st := final (Hit.step c) Hit.init ops
-    (Hit.call c st o).2.exec = true →
-      ((Hit.call c st o).2.started = false ∧ (Hit.call c st o).2.res = o.result st.t.now st.nexec) ∨
-      ((Hit.call c st o).2.started = true ∧
-        ((o.raises = true ∧ (Hit.call c st o).2.res = o.result st.t.now st.nexec) ∨
-         (o.raises = false ∧ ∃ s i, cached2 st.t = some (s, i) ∧ (Hit.call c st o).2.res = .stored s i))) := by
+    (Hit.call c st o d).2.exec = true →
+      ((Hit.call c st o d).2.started = false ∧ (Hit.call c st o d).2.res = o.result (st.t.now + d) st.nexec) ∨
+      ((Hit.call c st o d).2.started = true ∧
+        ((o.raises = true ∧ (Hit.call c st o d).2.res = o.result (st.t.now + d) st.nexec) ∨
+         (o.raises = false ∧ ∃ s i, cached2 st.t = some (s, i) ∧ (Hit.call c st o d).2.res = .stored s i))) := by
   intro st hx
-  exact Hit.call_answer c st o hx
+  exact Hit.call_answer c st o d hx
 
 /-- **hit: only an execution with outcome `ok` changes the stored result** (a `backend.set` that is refused has
 deleted the hit counter, not the result).  After any history. -/
-theorem hit_only_ok_stores (c : Hit.Cfg) (ops : List DOp) (o : Outcome) (ho : o ≠ .ok) :
+theorem hit_only_ok_stores (c : Hit.Cfg) (ops : List DOp) (o : Outcome) (d : Nat) (ho : o ≠ .ok) :
     let st := final (Hit.step c) Hit.init ops
-    cached2 (Hit.call c st o).1.t = cached2 st.t ∧ ∀ i, cached2 (Hit.done c st i o).1.t = cached2 st.t := by
+    (Hit.call c st o d).1.t.m kMain = st.t.m kMain ∧ ∀ i, cached2 (Hit.done c st i o).1.t = cached2 st.t := by
   intro st
-  have h1 := Hit.call_main c st o ho
-  refine ⟨Hit.cached2_congr h1.2 h1.1, fun i => ?_⟩
+  refine ⟨Hit.call_main c st o d ho, fun i => ?_⟩
   have h2 := Hit.done_main c st i o ho
   exact Hit.cached2_congr h2.2 h2.1
 
@@ -313,7 +430,7 @@ theorem hit_only_ok_stores (c : Hit.Cfg) (ops : List DOp) (o : Outcome) (ho : o 
 /-- early, ttl 2 s, early_ttl ½ s, background on: store; 5/8 s later the call starts a refresh and is
 answered from the store; a second call meanwhile is answered from the store without a second refresh;
 the refresh completes; the new result is served. -/
-def earlyHist : List DOp := [.call .ok, .adv 5, .call .ok, .call .listed, .adv 2, .done 0 .ok, .call .ok]
+def earlyHist : List DOp := [.call .ok 0, .adv 5, .call .ok 0, .call .listed 0, .adv 2, .done 0 .ok, .call .ok 0]
 
 example : answers (trace (Early.step ⟨16, 4, true⟩) Early.init earlyHist) =
     [.call ⟨.fresh 0 0, true, false⟩, .ok, .call ⟨.stored 0 0, false, true⟩, .call ⟨.stored 0 0, false, false⟩,
@@ -321,31 +438,31 @@ example : answers (trace (Early.step ⟨16, 4, true⟩) Early.init earlyHist) =
 
 /-- … and that history satisfies the timeliness hypothesis with a refresh really in flight during a call -/
 example : ∀ e ∈ trace (Early.step ⟨16, 4, true⟩) Early.init earlyHist, Early.Timely ⟨16, 4, true⟩ e.1 e.2.1 := by
-  intro e he o hop x hx
+  intro e he o d hop x hx
   simp only [earlyHist, trace, Early.step, Early.call, Early.done, Early.init, List.mem_cons, List.not_mem_nil,
     or_false] at he
   rcases he with rfl | rfl | rfl | rfl | rfl | rfl | rfl <;> revert x hx <;> decide
 
 /-- without timeliness two refreshes do overlap (the second call comes after the first refresh's lock expired) -/
-example : (final (Early.step ⟨16, 4, true⟩) Early.init [.call .ok, .adv 5, .call .ok, .adv 4, .call .ok]).inflight.length = 2 := by
+example : (final (Early.step ⟨16, 4, true⟩) Early.init [.call .ok 0, .adv 5, .call .ok 0, .adv 4, .call .ok 0]).inflight.length = 2 := by
   decide
 
 /-- soft, ttl 2 s, soft_ttl ½ s: fresh; served young; at exactly soft_ttl recomputed, the listed failure
 serves the stale value; an unlisted failure raises; after ttl a listed failure raises as well. -/
 example : answers (trace (Soft.step ⟨16, 4⟩) Soft.init
-      [.call .ok, .adv 3, .call .unlisted, .adv 1, .call .listed, .call .unlisted, .adv 12, .call .listed]) =
+      [.call .ok 0, .adv 3, .call .unlisted 0, .adv 1, .call .listed 0, .call .unlisted 0, .adv 12, .call .listed 0]) =
     [.call ⟨.fresh 0 0, true, false⟩, .ok, .call ⟨.stored 0 0, false, false⟩, .ok, .call ⟨.stored 0 0, true, false⟩,
      .call ⟨.raised .unlisted, true, false⟩, .ok, .call ⟨.raised .listed, true, false⟩] := by decide
 
 /-- failover, ttl 2 s -/
 example : answers (trace (Fail.step ⟨16⟩) Fail.init
-      [.call .listed, .call .ok, .adv 15, .call .listed, .call .unlisted, .adv 1, .call .listed]) =
+      [.call .listed 0, .call .ok 0, .adv 15, .call .listed 0, .call .unlisted 0, .adv 1, .call .listed 0]) =
     [.call ⟨.raised .listed, true, false⟩, .call ⟨.fresh 0 1, true, false⟩, .ok, .call ⟨.stored 0 1, true, false⟩,
      .call ⟨.raised .unlisted, true, false⟩, .ok, .call ⟨.raised .listed, true, false⟩] := by decide
 
 /-- hit, cache_hits 2, update_after 2, background on: two serves, the second starts a refresh, the
 third call executes again; a sequential history (the refresh completes before the next call) -/
-def hitHist : List DOp := [.call .ok, .call .ok, .call .ok, .done 0 .ok, .call .ok, .call .ok, .done 0 .listed, .call .ok]
+def hitHist : List DOp := [.call .ok 0, .call .ok 0, .call .ok 0, .done 0 .ok, .call .ok 0, .call .ok 0, .done 0 .listed, .call .ok 0]
 
 example : answers (trace (Hit.step ⟨16, 2, 2, true⟩) Hit.init hitHist) =
     [.call ⟨.fresh 0 0, true, false⟩, .call ⟨.stored 0 0, false, false⟩, .call ⟨.stored 0 0, false, true⟩,
@@ -353,12 +470,12 @@ example : answers (trace (Hit.step ⟨16, 2, 2, true⟩) Hit.init hitHist) =
      .call ⟨.fresh 0 3, true, false⟩] := by decide
 
 example : ∀ e ∈ trace (Hit.step ⟨16, 2, 2, true⟩) Hit.init hitHist, Hit.SeqOK e.1 e.2.1 := by
-  intro e he o hop
+  intro e he o d hop
   simp only [hitHist, trace, List.mem_cons, List.not_mem_nil, or_false] at he
   rcases he with rfl | rfl | rfl | rfl | rfl | rfl | rfl | rfl <;> first | rfl | (simp at hop)
 
 /-- the bound is attained: cache_hits = 2 serves since the last execution -/
-example : (Hit.counts false (trace (Hit.step ⟨16, 2, 0, true⟩) Hit.init [.call .ok, .call .ok, .call .ok])).1 = 2 := by decide
+example : (Hit.counts false (trace (Hit.step ⟨16, 2, 0, true⟩) Hit.init [.call .ok 0, .call .ok 0, .call .ok 0])).1 = 2 := by decide
 
 /-! ### … with store steps that fail or turn the result down -/
 
@@ -366,7 +483,7 @@ example : (Hit.counts false (trace (Hit.step ⟨16, 2, 0, true⟩) Hit.init [.ca
 `backend.set` raises an unlisted one: the exception is the answer, not the stored `(0,0)`; a result the condition
 turns down is returned; and the stored `(0,0)` is still what a listed failure of the function falls back to. -/
 example : answers (trace (Fail.step ⟨16⟩) Fail.init
-      [.call .ok, .adv 3, .call (.storeFails .pre true), .call (.storeFails .set false), .call .rejected, .call .listed]) =
+      [.call .ok 0, .adv 3, .call (.storeFails .pre true) 0, .call (.storeFails .set false) 0, .call .rejected 0, .call .listed 0]) =
     [.call ⟨.fresh 0 0, true, false⟩, .ok, .call ⟨.storeErr true, true, false⟩, .call ⟨.storeErr false, true, false⟩,
      .call ⟨.fresh 3 3, true, false⟩, .call ⟨.stored 0 0, true, false⟩] := by decide
 
@@ -374,25 +491,26 @@ example : answers (trace (Fail.step ⟨16⟩) Fail.init
 exception — that exception is the answer, not the stale value; the next call recomputes again, its result is turned
 down by the condition and returned; a listed failure of the function still falls back to `(0,0)`. -/
 example : answers (trace (Soft.step ⟨16, 4⟩) Soft.init
-      [.call .ok, .adv 4, .call (.storeFails .set true), .call .rejected, .call .listed, .call .ok]) =
+      [.call .ok 0, .adv 4, .call (.storeFails .set true) 0, .call .rejected 0, .call .listed 0, .call .ok 0]) =
     [.call ⟨.fresh 0 0, true, false⟩, .ok, .call ⟨.storeErr true, true, false⟩, .call ⟨.fresh 4 2, true, false⟩,
      .call ⟨.stored 0 0, true, false⟩, .call ⟨.fresh 4 4, true, false⟩] := by decide
 
 /-- early, background off: nothing stored — a turned-down result is returned and the next call executes again, a
 failing store step raises; with `(0,2)` stored and older than early_ttl a foreground refresh whose set is refused
-raises (D19-like), one whose result is turned down answers from the store and the next call refreshes again. -/
+raises (D19-like), one whose result is turned down hands that result to the caller that waited (nothing is stored) and
+the next call refreshes again — and gets the result it has just stored. -/
 example : answers (trace (Early.step ⟨16, 4, false⟩) Early.init
-      [.call .rejected, .call (.storeFails .pre false), .call .ok, .adv 5, .call (.storeFails .set true), .call .rejected,
-       .call .ok, .call .listed]) =
+      [.call .rejected 0, .call (.storeFails .pre false) 0, .call .ok 0, .adv 5, .call (.storeFails .set true) 0, .call .rejected 0,
+       .call .ok 0, .call .listed 0]) =
     [.call ⟨.fresh 0 0, true, false⟩, .call ⟨.storeErr false, true, false⟩, .call ⟨.fresh 0 2, true, false⟩, .ok,
-     .call ⟨.storeErr true, true, true⟩, .call ⟨.stored 0 2, true, true⟩, .call ⟨.stored 0 2, true, true⟩,
+     .call ⟨.storeErr true, true, true⟩, .call ⟨.fresh 5 4, true, true⟩, .call ⟨.fresh 5 5, true, true⟩,
      .call ⟨.stored 5 5, false, false⟩] := by decide
 
 /-- early, background on: background refreshes whose store step fails / whose result is turned down release the
 lock and leave the stored result; the next call starts another refresh. -/
 example : answers (trace (Early.step ⟨16, 4, true⟩) Early.init
-      [.call .ok, .adv 5, .call .ok, .done 0 (.storeFails .set true), .call .ok, .done 0 .rejected, .call .ok, .done 0 .ok,
-       .call .listed]) =
+      [.call .ok 0, .adv 5, .call .ok 0, .done 0 (.storeFails .set true), .call .ok 0, .done 0 .rejected, .call .ok 0, .done 0 .ok,
+       .call .listed 0]) =
     [.call ⟨.fresh 0 0, true, false⟩, .ok, .call ⟨.stored 0 0, false, true⟩, .done .failed, .call ⟨.stored 0 0, false, true⟩,
      .done .skipped, .call ⟨.stored 0 0, false, true⟩, .done .stored, .call ⟨.stored 5 3, false, false⟩] := by decide
 
@@ -400,8 +518,8 @@ example : answers (trace (Early.step ⟨16, 4, true⟩) Early.init
 is the answer, the counter is gone, the older result is served for two more calls, then the function runs again;
 a store step failing before the backend / a turned-down result leave the counter running: every later call executes. -/
 example : answers (trace (Hit.step ⟨16, 2, 0, true⟩) Hit.init
-      [.call .ok, .call .ok, .call .ok, .call (.storeFails .set false), .call .listed, .call .listed, .call .listed,
-       .call (.storeFails .pre true), .call .rejected, .call .ok]) =
+      [.call .ok 0, .call .ok 0, .call .ok 0, .call (.storeFails .set false) 0, .call .listed 0, .call .listed 0, .call .listed 0,
+       .call (.storeFails .pre true) 0, .call .rejected 0, .call .ok 0]) =
     [.call ⟨.fresh 0 0, true, false⟩, .call ⟨.stored 0 0, false, false⟩, .call ⟨.stored 0 0, false, false⟩,
      .call ⟨.storeErr false, true, false⟩, .call ⟨.stored 0 0, false, false⟩, .call ⟨.stored 0 0, false, false⟩,
      .call ⟨.raised .listed, true, false⟩, .call ⟨.storeErr true, true, false⟩, .call ⟨.fresh 0 4, true, false⟩,
@@ -410,7 +528,54 @@ example : answers (trace (Hit.step ⟨16, 2, 0, true⟩) Hit.init
 /-- hit, cache_hits 3, update_after 1, background on: the background refresh finishes with its set refused; the
 counter restarts, the next call is again the `update_after`-th and starts a refresh; the bound 3 is attained. -/
 example : (Hit.counts true (trace (Hit.step ⟨16, 3, 1, true⟩) Hit.init
-      [.call .ok, .call .ok, .call .ok, .done 0 (.storeFails .set true), .call .ok, .call .ok, .call .ok])) = (3, 3) := by
+      [.call .ok 0, .call .ok 0, .call .ok 0, .done 0 (.storeFails .set true), .call .ok 0, .call .ok 0, .call .ok 0])) = (3, 3) := by
   decide
+
+/-! ### … with executions that take time (ttl 2 s = 16 ticks, inner ttl ½ s = 4 ticks) -/
+
+/-- failover: a result is stored at 0; a call beginning at 14 whose function takes 1 tick and raises a listed exception
+falls back to it (aged 15 at the failure); the next call begins at 15 (the result is still younger than ttl), its
+function takes 2 ticks and raises a listed exception at 17: the result expired meanwhile, the exception is the answer
+(with the seeded change C14-8 — fallback read before the function runs — `(0,0)` would be returned, 17 ticks old). -/
+example : answers (trace (Fail.step ⟨16⟩) Fail.init [.call .ok 0, .adv 14, .call .listed 1, .call .listed 2]) =
+    [.call ⟨.fresh 0 0, true, false⟩, .ok, .call ⟨.stored 0 0, true, false⟩, .call ⟨.raised .listed, true, false⟩] := by decide
+
+/-- … and that history passes through the premise of `failover_fallback_judged_at_failure` both ways -/
+example : cached2 (advance (final (Fail.step ⟨16⟩) Fail.init [.call .ok 0, .adv 14]).t 1) = some (0, 0) ∧
+    cached2 (advance (final (Fail.step ⟨16⟩) Fail.init [.call .ok 0, .adv 14, .call .listed 1]).t 2) = none := by decide
+
+/-- soft (D39 repaired): the first execution takes 3 ticks, its result is stamped 3 (soft deadline 7, gone at 19); a call
+at 6 is served without executing; a call at 7 recomputes for 2 ticks and fails: served stale at 9; a call beginning at 18
+(aged 15) recomputes for 2 ticks and fails at 20: the result expired at 19, the exception is the answer. -/
+example : answers (trace (Soft.step ⟨16, 4⟩) Soft.init
+      [.call .ok 3, .adv 3, .call .unlisted 9, .adv 1, .call .listed 2, .adv 9, .call .listed 2]) =
+    [.call ⟨.fresh 3 0, true, false⟩, .ok, .call ⟨.stored 3 0, false, false⟩, .ok, .call ⟨.stored 3 0, true, false⟩, .ok,
+     .call ⟨.raised .listed, true, false⟩] := by decide
+
+example : (final (Soft.step ⟨16, 4⟩) Soft.init
+      [.call .ok 3, .adv 3, .call .unlisted 9, .adv 1, .call .listed 2, .adv 9, .call .listed 2]).t.now = 20 := by decide
+
+/-- early, background off (D40 repaired): the first execution takes 3 ticks (stamp 3, early deadline 7 — with the seeded
+change C14-1 it would be 4); the call at 7 is still served without a refresh; the call at 8 waits 2 ticks for its
+foreground refresh and gets the refreshed result `(10, 1)`; a call beginning at 25 (`(10,1)` aged 15) waits 5 ticks — longer
+than the refresh lock lives and beyond the old result's ttl — and gets `(30, 2)`, not the 20-tick-old `(10, 1)`. -/
+example : answers (trace (Early.step ⟨16, 4, false⟩) Early.init
+      [.call .ok 3, .adv 4, .call .ok 9, .adv 1, .call .ok 2, .adv 15, .call .ok 5, .call .listed 1]) =
+    [.call ⟨.fresh 3 0, true, false⟩, .ok, .call ⟨.stored 3 0, false, false⟩, .ok, .call ⟨.fresh 10 1, true, true⟩, .ok,
+     .call ⟨.fresh 30 2, true, true⟩, .call ⟨.stored 30 2, false, false⟩] := by decide
+
+/-- early, nothing stored, the execution takes 3 ticks: the result can be read for exactly ttl ticks after its completion
+(`early_deadlines_count_from_completion`) -/
+example : cached3 (advance (Early.call ⟨16, 4, true⟩ Early.init .ok 3).1.t 15) = some (3, 0, 7) ∧
+    cached3 (advance (Early.call ⟨16, 4, true⟩ Early.init .ok 3).1.t 16) = none := by decide
+
+/-- hit, cache_hits 2, update_after 1, background off: the first execution takes 2 ticks; the next call is the
+`update_after`-th: it waits 3 ticks for its foreground refresh and is answered with the result it read before (the sentence
+about hit bounds serves, not ages); a call beginning at 20 finds `(5,1)` (aged 15), counts hit 1 = update_after, refreshes
+for 2 ticks: answered at 22 with `(5,1)`; the next call is again the `update_after`-th, its foreground refresh raises and so does
+the call (mirrored). -/
+example : answers (trace (Hit.step ⟨16, 2, 1, false⟩) Hit.init [.call .ok 2, .call .ok 3, .adv 15, .call .ok 2, .call .listed 0]) =
+    [.call ⟨.fresh 2 0, true, false⟩, .call ⟨.stored 2 0, true, true⟩, .ok, .call ⟨.stored 5 1, true, true⟩,
+     .call ⟨.raised .listed, true, true⟩] := by decide
 
 end CashewsVerif.Props.C14
